@@ -77,7 +77,7 @@ func c20PacerCfg(reno bool, initPkts int, dq, dt int) func(bool) *c20Cfg {
 	return func(th bool) *c20Cfg {
 		c := &c20Cfg{reno: reno, initPkts: protocol.ByteCount(initPkts), depth: dq, pacer: true,
 			sizes: []int{0, 2}, nonRetr: true, burst: true, paced: 8, acks: []int{0}, losses: []int{0},
-			rtts:   []time.Duration{time.Millisecond, 10 * time.Second}, maxRTTOps: 2,
+			rtts: []time.Duration{time.Millisecond, 10 * time.Second}, maxRTTOps: 2,
 			maxMTU: 1,
 			steps:  []time.Duration{time.Microsecond, time.Millisecond, time.Second, time.Hour}, huge: true, advPace: true,
 		}
